@@ -104,7 +104,7 @@ def check_tiling(case, ctx):
     try:
         _tile(text, fullsheet, tokens, ctx, 0)
     except Violation as v:
-        if tokens and tokens[0][0] == 'BOM' and v.sig.startswith(('pos:', 'tiling:')):
+        if tokens and tokens[0][0] == 'BOM' and v.sig.startswith(('pos:', 'tiling:', 'eof:position')):
             # known finding: BOM characters do not advance the column.  If everything
             # else is right once line-1 columns are shifted, report exactly that.
             _tile(text, fullsheet, tokens, _NullCtx(), len(tokens[0][1]))
@@ -122,6 +122,13 @@ def _tile(text, fullsheet, tokens, ctx, bomshift):
         if not tokens or tokens[-1][0] != 'EOF' or tokens[-1][1] != '':
             raise Violation('eof:missing', repr(tokens[-3:]))
         body = tokens[:-1]
+        # the end marker stands behind the input (a completed string / url( counts the characters added for it)
+        end_line = 1 + text.count('\n')
+        end_col = len(text) - (text.rfind('\n') + 1) + 1
+        completed = bool(body) and body[-1][0] in ('STRING', 'URI')
+        eof = tokens[-1]
+        if eof[2] != end_line or not (end_col - bomshift * (end_line == 1) <= eof[3] <= end_col + (2 if completed else 0)):
+            raise Violation('eof:position', f'end marker at {eof[2]}:{eof[3]}, the input {text[-30:]!r} ends at {end_line}:{end_col}')
     if any(t[0] == 'EOF' for t in body):
         raise Violation('eof:duplicate-or-not-last', repr([t[0] for t in tokens]))
     starts = line_starts(text)
@@ -619,6 +626,16 @@ def check_errpos(case, ctx):
         raise Violation('errpos:inside-wellformed-prefix', f'{exc} -> offset {off}, bad starts at {len(pre)} in {text!r}')
     if getattr(exc, 'line', None) is not None and (exc.line, exc.col) != (ln, col):
         raise Violation('errpos:attrs-differ-from-message', f'{exc.line}:{exc.col} vs {exc}')
+    # a report keeps its own position whatever is reported later
+    mine = (getattr(exc, 'line', None), getattr(exc, 'col', None))
+    for other in ('a $b {}', '\n\n\n   ,{}', 'a{x:y !}'):
+        try:
+            cssutils.CSSParser(raiseExceptions=True).parseString(other)
+        except xml.dom.DOMException:
+            pass
+    cssutils.log.raiseExceptions = saved
+    if (getattr(exc, 'line', None), getattr(exc, 'col', None)) != mine:
+        raise Violation('errpos:position-of-earlier-report-changed', f'{exc}: was {mine}, is {(exc.line, exc.col)} after later reports')
     ctx.event('rejected-with-position')
     ctx.case(text, ln > 1 or col > 1, {'text': text, 'error': str(exc)[-60:]})
 
@@ -670,6 +687,10 @@ def check_complete(case, ctx):
         raise Violation('complete:not-completed:' + want, f'{text!r} -> {[(t[0], t[1]) for t in got][-4:]}, terminated text gives {[(t[0], t[1]) for t in ref][-3:]}')
     if [t[:2] for t in got[:-2]] != [t[:2] for t in ref[:-2]] or [t[2:] for t in got[:-1]] != [t[2:] for t in ref[:-1]]:
         raise Violation('complete:earlier-tokens-differ', f'{text!r}: {got!r} vs {ref!r}')
+    # with comments switched off the tokens are those of the text without its comments
+    got_nc, ref_nc = toks(text, True, doComments=False), toks(text + closer, True, doComments=False)
+    if [t[:2] for t in got_nc] != [t[:2] for t in ref_nc]:
+        raise Violation('complete:comments-off-differs', f'{text!r} with comments off -> {[(t[0], t[1]) for t in got_nc][-4:]}, terminated text gives {[(t[0], t[1]) for t in ref_nc][-3:]}')
     ctx.event('complete:' + k)
     ctx.case(text, '\\' in open_ or bool(case['ws']) or '\n' in text, {'text': text, 'last': list(got[-2][:2])})
 
@@ -722,9 +743,32 @@ def spelled_keyword_cases(tier):
                         yield {'text': word[:i] + '\\' + digits + term + word[i + 1:] + tail, 'kind': kind, 'word': word}
 
 
+_spelled0 = spelled_keyword_cases
+
+
+def spelled_keyword_cases(tier):  # noqa: F811
+    yield from _spelled0(tier)
+    for word, tail, kind in [('@import', ' "x";', 'IMPORT_SYM'), ('@media', ' tv{}', 'MEDIA_SYM'), ('@page', '{}', 'PAGE_SYM'), ('@namespace', ' "u";', 'NAMESPACE_SYM'),
+                             ('@font-face', '{}', 'FONT_FACE_SYM')]:
+        for esc in ('\\5c', '\\5C ', '\\00005c', '\\\\'):
+            for i in (1, 3):
+                yield {'text': word[:i] + esc + word[i:] + tail, 'kind': kind, 'word': word, 'not': True}
+    for sp in ('an\\64', 'an\\64 ', '\\61nd', 'AN\\44', '\\000061 nd', 'a\\6e d', 'a\\6E\td', 'And', 'AND'):
+        yield {'text': sp + '(min-width:1px)', 'kind': 'IDENT', 'word': 'and(', 'and': True}
+
+
 def check_spelled_keyword(case, ctx):
     tokens = toks(case['text'], False)
     ctx.case(case['text'], True, None)
+    if case.get('not'):
+        # an escaped backslash is a character of the name: this is another name than the keyword
+        if tokens and tokens[0][0] == case['kind']:
+            raise Violation('class:other-name-read-as-keyword', f'{case["text"]!r} starts with {tokens[:2]!r}: the name holds a backslash, it is not {case["word"]}')
+        return
+    if case.get('and'):
+        if [t[0] for t in tokens[:2]] != ['IDENT', 'CHAR']:
+            raise Violation('class:escaped-spelling-of-keyword', f'{case["text"]!r} starts with {tokens[:2]!r}; "and(" gives IDENT, CHAR')
+        return
     if not tokens or tokens[0][0] != case['kind']:
         raise Violation('class:escaped-spelling-of-keyword', f'{case["text"]!r} starts with {tokens[:2]!r}, expected one {case["kind"]} token')
 
